@@ -15,10 +15,12 @@ import (
 	"context"
 	"fmt"
 	"io"
+	"log/slog"
 	"math/rand/v2"
 	"net/http"
 	"net/netip"
 	"net/url"
+	"os"
 	"sort"
 	"strconv"
 	"strings"
@@ -795,6 +797,7 @@ func (run *v34Run) doExchange(ctx context.Context, cc *clientConn, ex *v34Exchan
 
 type v34RunStats struct {
 	HandshakeErr error
+	StuckIDs     map[int]bool // exchanges that were incomplete when the bound expired
 	Stuck        bool
 	VirtualMs    int64
 	Net          *vhnNet
@@ -804,6 +807,43 @@ var (
 	v34ServerAddr = netip.MustParseAddrPort("10.0.0.1:443")
 	v34ClientAddr = netip.MustParseAddrPort("10.0.0.2:5000")
 )
+
+// v34DbgLog is a debug-only qlog sink (VERIF_DEBUG set): it keeps the last events of one run
+// and is dumped to /tmp/C34 when the run gets stuck.
+type v34DbgLog struct {
+	mu    *sync.Mutex
+	side  string
+	lines *[]string
+	t0    time.Time
+}
+
+func (h *v34DbgLog) Enabled(context.Context, slog.Level) bool { return true }
+func (h *v34DbgLog) WithGroup(string) slog.Handler            { return h }
+func (h *v34DbgLog) WithAttrs(attrs []slog.Attr) slog.Handler { return h }
+func (h *v34DbgLog) Handle(_ context.Context, rec slog.Record) error {
+	var sb strings.Builder
+	fmt.Fprintf(&sb, "%8dms %s %s", time.Since(h.t0).Milliseconds(), h.side, rec.Message)
+	rec.Attrs(func(a slog.Attr) bool {
+		if a.Key == "frames" {
+			vals, _ := a.Value.Any().([]slog.Value)
+			for _, v := range vals {
+				fmt.Fprintf(&sb, " {%v}", v.Any())
+			}
+		} else {
+			fmt.Fprintf(&sb, " %s=%v", a.Key, a.Value)
+		}
+		return true
+	})
+	h.mu.Lock()
+	*h.lines = append(*h.lines, sb.String())
+	if len(*h.lines) > 20000 {
+		*h.lines = (*h.lines)[10000:]
+	}
+	h.mu.Unlock()
+	return nil
+}
+
+var v34Debug = os.Getenv("VERIF_DEBUG") != ""
 
 func v34QUICConfig(buf [3]int64) *quic.Config {
 	return &quic.Config{
@@ -828,6 +868,11 @@ func (run *v34Run) execute(t *testing.T) *v34RunStats {
 	start := time.Now()
 
 	srv := &server{config: v34QUICConfig(cfg.SrvBuf), handler: run}
+	var dbgLines []string
+	var dbgMu sync.Mutex
+	if v34Debug {
+		srv.config.QLogLogger = slog.New(&v34DbgLog{mu: &dbgMu, side: "S", lines: &dbgLines, t0: start})
+	}
 	srvEP, err := quic.NewEndpoint(nw.NewConn(v34ServerAddr, vhnS2C), srv.config)
 	if err != nil {
 		st.HandshakeErr = err
@@ -839,6 +884,9 @@ func (run *v34Run) execute(t *testing.T) *v34RunStats {
 		srv.serve(srvEP)
 	}()
 	cliConf := v34QUICConfig(cfg.CliBuf)
+	if v34Debug {
+		cliConf.QLogLogger = slog.New(&v34DbgLog{mu: &dbgMu, side: "C", lines: &dbgLines, t0: start})
+	}
 	cliEP, err := quic.NewEndpoint(nw.NewConn(v34ClientAddr, vhnC2S), nil)
 	if err != nil {
 		st.HandshakeErr = err
@@ -908,10 +956,17 @@ func (run *v34Run) execute(t *testing.T) *v34RunStats {
 	st.VirtualMs = time.Since(start).Milliseconds()
 	if !done {
 		st.Stuck = true
+		st.StuckIDs = map[int]bool{}
+		if v34Debug {
+			dbgMu.Lock()
+			os.WriteFile(fmt.Sprintf("/tmp/C34/stuck-%s-%d.log", run.c.Stream, run.c.Index), []byte(strings.Join(dbgLines, "\n")), 0o644)
+			dbgMu.Unlock()
+		}
 		var stuck []string
 		for _, ex := range cfg.Ex {
 			co, so := run.cli[ex.ID], run.srv[ex.ID]
 			if !co.Done.Load() {
+				st.StuckIDs[ex.ID] = true
 				stuck = append(stuck, fmt.Sprintf("exchange %d (%s req %s %d/%d resp %s %d/%d): handler calls=%d done=%v read %d; client read %d",
 					ex.ID, ex.Method, ex.ReqKind, ex.ReqBody, ex.ReqDeclared, ex.RespKind, ex.RespBody, ex.RespDeclared, so.Calls.Load(), so.Done.Load(), so.Body.Progress.Load(), co.Body.Progress.Load()))
 			}
@@ -1004,8 +1059,8 @@ func (run *v34Run) evaluate(st *v34RunStats, r *verifrt.R) {
 	for _, ex := range cfg.Ex {
 		so, co := run.srv[ex.ID], run.cli[ex.ID]
 		desc := fmt.Sprintf("%s %s req=%s/%d/%d resp=%s/%d/%d status=%d", ex.Method, ex.RawPath, ex.ReqKind, ex.ReqBody, ex.ReqDeclared, ex.RespKind, ex.RespBody, ex.RespDeclared, ex.Status)
-		if !co.Done.Load() {
-			continue // reported as stuck
+		if !co.Done.Load() || st.StuckIDs[ex.ID] {
+			continue // reported as stuck; what teardown did to it afterwards is not an observation
 		}
 		reqMismatch := ex.ReqKind == v34ReqShort || ex.ReqKind == v34ReqLong
 		invoked := so.Calls.Load() > 0 && so.Done.Load()
